@@ -41,6 +41,7 @@ def swarm(prop, r, tier):
     cfg["kinds"] = kinds
     w = cfg["w"]
     if prop == "C15":
+        cfg["all_rejects"] = thorough and R.chance(0.5)
         w.update({"grow": 3, "edit": 2, "reject": 5, "phase": 1, "domfault": 0.2, "analyse": 0.5, "restart": 0.2, "observe": 0.4})
     elif prop == "C14":
         w.update({"grow": 3, "edit": 5, "reject": 5, "phase": 0.5, "domfault": 0.2, "analyse": 0.1, "restart": 0.2, "observe": 0.1})
